@@ -262,6 +262,10 @@ def _ingest_reports(chk, recs, part):
             chk.violation(r.get("sig", "unknown"), r.get("detail", ""), r.get("replay"))
         elif k == "stat":
             d = {kk: vv for kk, vv in r.items() if kk != "k"}
+            if d.get("alloc_table_saturated"):
+                # the harness leaked so much that its allocator table filled up: whatever it reported stands,
+                # but "no allocator violation" from this process means nothing
+                chk.incon("%s: the tracking allocator's table saturated (unbounded leak in the workload); allocator accounting of this process is inconclusive" % part)
             cur = chk.parts.setdefault(part, {})
             for kk, vv in d.items():
                 if isinstance(vv, (int, float)) and isinstance(cur.get(kk), (int, float)):
